@@ -690,7 +690,9 @@ class FieldStorageParser:
 
     def _write(self, line, file):
         """line is always bytes, not string"""
-        if isinstance(file, (BytesIO, StringIO)):  # if file is in memory
+        if isinstance(file, (BytesIO, StringIO)) and \
+                not (self.filename and self.file_callback):
+            # file is in memory, and it is not from file_callback
             if file.tell() + len(line) > self.BUFSIZE:
                 _file = self.make_file()
                 _file.write(file.getvalue())
